@@ -24,11 +24,14 @@ def content(kind, f, t):
         return {'o': {'k': 'alias', 'n': 'n'}}
     if kind == 'fixed':
         return {'n': {'k': 'roles', 'r': [f + '@fixed']}}
+    if kind == 'oldsame':
+        return {'o': {'k': 'roles', 'r': ['old'], 'text': '(role:old)'}}
     return {'n': {'k': 'roles', 'r': [stamp(f, t)]}, 'n2': {'k': 'roles', 'r': [stamp(f, t) + '#2']}}
 
 
 STYLES = [('role:dflt', 'role:old'), ('(role:dflt)', 'role:old and @'), ('role:dflt or !', '! or role:old'),
-          ('not not role:dflt', '(role:old or role:old)')]
+          ('not not role:dflt', '(role:old or role:old)'), ('role:dflt and role:dflt', 'role:old and not !'),
+          ('@ and role:dflt', '(role:old and role:old) or !')]
 
 
 def defaults_for(variant, style=0, reason='r', since='s'):
@@ -67,12 +70,12 @@ def snapshot_defaults(defaults):
     return out
 
 
-def new_enforcer(box, variant, enforce_new, defaults=None):
+def new_enforcer(box, variant, enforce_new, defaults=None, overwrite=True):
     from oslo_config import cfg
     from oslo_policy import policy
     conf = cfg.ConfigOpts()
     conf([], project='verif', default_config_files=[], default_config_dirs=[])
-    e = policy.Enforcer(conf, policy_file=box.path('main'))
+    e = policy.Enforcer(conf, policy_file=box.path('main'), overwrite=overwrite)
     conf.set_override('policy_dirs', box.dirs(), group='oslo_policy')
     conf.set_override('enforce_new_defaults', bool(enforce_new), group='oslo_policy')
     e.suppress_deprecation_warnings = True
@@ -116,12 +119,12 @@ def apply_fs(box, ev):
 class Live:
     """one long-lived enforcer with its own files, driven along a history"""
 
-    def __init__(self, rng, variant, enforce_new, defaults=None, via='enforce'):
+    def __init__(self, rng, variant, enforce_new, defaults=None, via='enforce', overwrite=True):
         self.box = fsbox.Box(rng)
-        self.variant, self.enforce_new, self.via = variant, enforce_new, via
+        self.variant, self.enforce_new, self.via, self.overwrite = variant, enforce_new, via, overwrite
         self.defaults = defaults if defaults is not None else defaults_for(variant)
         self.snap = snapshot_defaults(self.defaults)
-        self.e = new_enforcer(self.box, variant, enforce_new, self.defaults)
+        self.e = new_enforcer(self.box, variant, enforce_new, self.defaults, overwrite)
         self.roles = ['dflt', 'old', 'nobody'] + [f + '@fixed' for f in MUTABLE]
         self.trace = []
         self.last_print = None
@@ -149,7 +152,7 @@ class Live:
                     for r in self.roles:
                         if self.e.enforce(d.name, {}, {'roles': [r], 'system_scope': 'all'}):
                             rec['scopeblk'] = 0
-                fresh = new_enforcer(self.box, self.variant, self.enforce_new, self.defaults)
+                fresh = new_enforcer(self.box, self.variant, self.enforce_new, self.defaults, self.overwrite)
                 rec['fresh'] = decisions(fresh, self.roles, 'enforce')
                 if snapshot_defaults(self.defaults) != self.snap:
                     rec['shared'] = 0
@@ -173,10 +176,10 @@ class Live:
         self.box.close()
 
 
-def run_history(rng, variant, enforce_new, history, via='enforce', defaults=None):
+def run_history(rng, variant, enforce_new, history, via='enforce', defaults=None, overwrite=True):
     """history: list of ('write', f, kind) / ('empty'|'touch'|'delete', f) /
     ('ignored', f) / ('load', force).  Returns the recorded trace."""
-    lv = Live(rng, variant, enforce_new, via=via, defaults=defaults)
+    lv = Live(rng, variant, enforce_new, via=via, defaults=defaults, overwrite=overwrite)
     try:
         for ev in history:
             lv.step(ev)
@@ -191,6 +194,7 @@ CONSTANTS
  EnforceNew = %s
  Variant = "%s"
  StartWithMain = FALSE
+ Overwrite = %s
  Names <- MCNames
  MainFile = "main"
  Dirs <- MCDirs
@@ -206,7 +210,7 @@ def strip_trace(tr):
     return [{k: v for k, v in ev.items() if not k.startswith('_')} for ev in tr]
 
 
-def judge_traces(ctx, variant, enforce_new, traces, timeout=3000):
+def judge_traces(ctx, variant, enforce_new, traces, timeout=3000, overwrite=True):
     """returns list of (trace index, why, step) for rejected traces"""
     import json
     import os
@@ -218,7 +222,7 @@ def judge_traces(ctx, variant, enforce_new, traces, timeout=3000):
     try:
         with os.fdopen(fd, 'w') as f:
             json.dump([strip_trace(t) for t in traces], f, separators=(',', ':'))
-        res = tlc.run('Trace_Loader', CFG % ('TRUE' if enforce_new else 'FALSE', variant), env={'VERIF_CASES': path},
+        res = tlc.run('Trace_Loader', CFG % ('TRUE' if enforce_new else 'FALSE', variant, 'TRUE' if overwrite else 'FALSE'), env={'VERIF_CASES': path},
                       cont=True, timeout=timeout)
     finally:
         os.unlink(path)
